@@ -183,7 +183,8 @@ def exmod(
     ] = partial(path.join, output_directory, "sqlalchemy_mod")
     sqlalchemy_mod_dir = sqlalchemy_mod_dir_join()
     make_sqlalchemy_mod: bool = (
-        emit_name in frozenset(("sqlalchemy", "sqlalchemy_hybrid", "sqlalchemy_table"))
+        not dry_run
+        and emit_name in frozenset(("sqlalchemy", "sqlalchemy_hybrid", "sqlalchemy_table"))
         and emit_sqlalchemy_submodule
         and not path.isdir(sqlalchemy_mod_dir)
     )
